@@ -349,6 +349,5 @@ func (u *Uni) buildObject(t reflect.Type, objType, key string) reflect.Value {
 type FedVariant struct {
 	Name    string
 	NewStub func() any
-	Build   func(stub any) graphql.ExecutableSchema
-	Models  map[string]reflect.Type
+	Build   func(stub any, hook func(ctx context.Context, typ, key string) error) graphql.ExecutableSchema
 }
